@@ -13,3 +13,5 @@ for P in "$@"; do
   ( cd /verif && ALDOR_REPO=$M VERIF_EVIDENCE_DIR=/var/tmp/mut-evidence VERIF_REPLAY_DIR=/var/tmp/mut-replays timeout 3600 ./check $P --tier quick 2>&1 | grep -v "^KNOWN-FINDING" | grep -E "VIOLATION|^  --|tier=" | cut -c1-400 | head -12 )
 done
 rm -rf $M
+# the translators rewrote lean/AldorVerif/Gen from the mutated tree: restore the committed snapshot
+( cd /verif && git checkout -- lean/AldorVerif/Gen 2>/dev/null )
